@@ -29,7 +29,7 @@ func (a aff) String() string {
 }
 
 // geq0: a >= 0 for every L >= 0
-func (a aff) geq0() bool { return a.c >= 0 && a.k >= 0 }
+func (a aff) geq0() bool    { return a.c >= 0 && a.k >= 0 }
 func (a aff) sub(b aff) aff { return aff{a.c - b.c, a.k - b.k} }
 func (a aff) add(b aff) aff { return aff{a.c + b.c, a.k + b.k} }
 
@@ -618,7 +618,7 @@ func (it *interp) doCall(env map[ssa.Value]any, c *ssa.Call) any {
 			var cell any
 			switch y := args[2].(type) {
 			case aBits:
-				cell = aBits{y.v.Shr(8 * byteIdx).Resize(8, false)}
+				cell = aBits{y.v.Shr(8*byteIdx).Resize(8, false)}
 			case affConv:
 				cell = affByte{y.a, byteIdx, y.width}
 			default:
